@@ -6,6 +6,7 @@ import AkVerif.Lemmas.GhistIncl
 import AkVerif.Lemmas.GhistBnAll
 import AkVerif.Lemmas.GhistWindow
 import AkVerif.Lemmas.GhistPlugTotal
+import AkVerif.Lemmas.GhistInclSpec
 /-!
 # C07 — component builds are reported at the first parent build that ships them
 
@@ -15,7 +16,7 @@ keys of `_COMPONENTS_VERSIONS_LOCATIONS` of repository `a` — components that a
 repositories are ignored (`Edge` asks for `b ∈ ids`).
 -/
 namespace C07
-open Ghist Ak
+open Ghist Ghist.Incl Ak
 
 /-- **C07.repo_order** — repositories are analysed components first: the order returned is a permutation of the
 supplied repositories in which every component of a repository stands strictly before it. -/
@@ -161,55 +162,14 @@ theorem bumps_recorded :
         ((∃ e, gC.bnMapAll.lookup bump.toBn = some e ∧ bump.toRb = some e.2) ∨
          (gC.bnMapAll.lookup bump.toBn = none ∧
            ((bump.fromRbs = [] ∧ bump.toRb = none) ∨ ∃ m, maxOf bump.fromRbs = some m ∧ bump.toRb = some m))) := by
-  have hg := rgraph_nw hT hW hgw
-  intro b hb
-  obtain ⟨rc, cm, pbs, h1, h2, h3, rel, hrel, h4⟩ := (rgraph_bumpsOk hT (compWindow_full hcw) hg).1 b hb
-  refine ⟨rc, cm, pbs, h1, h2, h3, ?_⟩
-  intro comp bump hm
-  rw [mkPlug_mkBumps_full hrel] at h4
-  obtain ⟨gC, v, h5, h6, h7⟩ := mkBumps_mem h4 comp bump hm
-  obtain ⟨h8, h9, h10⟩ := mkBump_spec h7
-  refine ⟨gC, v, (mem_sortBy _ _ _).mp h5, h6, h9, ?_, h10⟩
-  intro x
-  rw [h8, mem_fromSet]
-  simp only [List.mem_map]
-  constructor
-  · rintro ⟨_, ⟨pb, hpb, rfl⟩, b0, hb0⟩; exact ⟨pb, hpb, b0, hb0⟩
-  · rintro ⟨pb, hpb, b0, hb0⟩; exact ⟨_, ⟨pb, hpb, rfl⟩, b0, hb0⟩
+  apply Ghist.Incl.bumps_recorded <;> assumption
 
 /-- the version pinned by a parent build is one of the previous versions (`from_rbuilds`) of the build -/
 theorem parent_version_in_from (b1 b2 : RB Bumps) (hb1 : b1 ∈ g.builds) (hb2 : b2 ∈ g.builds)
     (hpar : b1.iid ∈ b2.parents) (comp : Nat) (bump1 bump2 : Bump) (t1 : Nat)
     (h1 : b1.bumps.lookup comp = some bump1) (ht1 : bump1.toRb = some t1)
     (h2 : b2.bumps.lookup comp = some bump2) : t1 ∈ bump2.fromRbs := by
-  have hg := rgraph_nw hT hW hgw
-  obtain ⟨rc, cm, pbs, _, _, hres, hall⟩ := bumps_recorded comps h hT hW hcw g hgw b2 hb2
-  obtain ⟨gC', v, _, _, _, hfrom, _⟩ := hall comp bump2 (lookup_some_mem h2)
-  rw [hfrom]
-  -- `b1` is among the resolved parent builds: ids of builds are unique
-  have hinc := (rgraph_facts hT hg).bldInc
-  have hb1res : b1 ∈ pbs := by
-    clear hall hfrom
-    generalize b2.parents = is at hres hpar
-    induction hres with
-    | nil => cases hpar
-    | @cons i pb is' pbs' hm hi _ ih =>
-      rcases List.mem_cons.mp hpar with h5 | h5
-      · have : pb = b1 := by
-          have e1 := build?_of_mem (rp := { (Repo.empty : Repo Bumps) with builds := g.builds }) hinc hm
-          have e2 := build?_of_mem (rp := { (Repo.empty : Repo Bumps) with builds := g.builds }) hinc hb1
-          rw [hi, ← h5] at e1
-          rw [e1] at e2
-          exact Option.some.inj e2
-        rw [this]; simp
-      · exact List.mem_cons_of_mem _ (ih h5)
-  exact ⟨b1, hb1res, bump1, h1, Or.inl ht1⟩
-
-/-- `b1` lies below `b2` along parent builds -/
-inductive BuildChain (builds : List (RB Bumps)) : RB Bumps → RB Bumps → Prop
-  | one {b1 b2 : RB Bumps} : b1 ∈ builds → b2 ∈ builds → b1.iid ∈ b2.parents → BuildChain builds b1 b2
-  | step {b1 bm b2 : RB Bumps} : BuildChain builds b1 bm → b2 ∈ builds → bm.iid ∈ b2.parents →
-      BuildChain builds b1 b2
+  exact Ghist.Incl.parent_version_in_from comps h hT hW hcw g hgw b1 b2 hb1 hb2 hpar comp bump1 bump2 t1 h1 ht1 h2
 
 /-- **partial** (C07.included_only_first) — "and at no other parent build": a component build contained in the
 version pinned by a build `b1` is not registered again by any build `b2` above `b1` along parent builds.
@@ -227,36 +187,12 @@ theorem included_only_first_partial (comp : Nat) (gC : Graph Bumps)
     (repo : Nat) (name : List Char) (l : List Reg)
     (hl : regsOfBuild repo name comp gC b2 = .ok l) (x : Nat) (hx : RbAnc gC x t1) :
     (⟨comp, x, repo, name, b2.bn⟩ : Reg) ∉ l := by
-  have hg := rgraph_nw hT hW hgw
-  -- along the chain `x` stays contained in a previous version of every build, hence in its version
-  have key : ∀ {b2 : RB Bumps}, BuildChain g.builds b1 b2 →
-      ∃ bump2 t2, b2.bumps.lookup comp = some bump2 ∧ bump2.toRb = some t2 ∧
-        (∃ f ∈ bump2.fromRbs, RbAnc gC x f) ∧ RbAnc gC x t2 := by
-    intro b2 hc
-    induction hc with
-    | one hb1 hb2 hpar =>
-      obtain ⟨bump2, t2, h2, ht2⟩ := hpin _ hb2
-      have hin := parent_version_in_from comps h hT hW hcw g hgw _ _ hb1 hb2 hpar comp bump1 bump2 t1 h1 ht1 h2
-      exact ⟨bump2, t2, h2, ht2, ⟨t1, hin, hx⟩, RbAnc.trans hx (hmono _ hb2 bump2 t2 h2 ht2 t1 hin)⟩
-    | step hc' hb2 hpar ih =>
-      rename_i bm b2'
-      obtain ⟨bumpm, tm, hm1, hm2, _, hxm⟩ := ih
-      have hbm : bm ∈ g.builds := by
-        cases hc' with
-        | one _ h _ => exact h
-        | step _ h _ => exact h
-      obtain ⟨bump2, t2, h2, ht2⟩ := hpin _ hb2
-      have hin := parent_version_in_from comps h hT hW hcw g hgw _ _ hbm hb2 hpar comp bumpm bump2 tm hm1 hm2 h2
-      exact ⟨bump2, t2, h2, ht2, ⟨tm, hin, hxm⟩, RbAnc.trans hxm (hmono _ hb2 bump2 t2 h2 ht2 tm hin)⟩
-  obtain ⟨bump2, t2, h2, _, ⟨f, hf, hxf⟩, _⟩ := key hch
-  intro hin
-  obtain ⟨_, bump, t, h3, _, _, h4⟩ := (regsOfBuild_mem hl x).mp hin
-  rw [h2] at h3; cases h3
-  exact h4 f hf hxf
+  apply Ghist.Incl.included_only_first_partial <;> assumption
 
 /-- the parent builds recorded in a build are the nearest builds of the same branch below it in git ancestry
 (this is (1) of `included_first_partial`, proved for every history) -/
-theorem parent_builds_nearest : ∀ rb ∈ g.all, BrPar h g.rcs rb := rgraph_par hT (rgraph_nw hT hW hgw)
+theorem parent_builds_nearest : ∀ rb ∈ g.all, BrPar h g.rcs rb := by
+  apply Ghist.Incl.parent_builds_nearest <;> assumption
 
 /-- **partial** (C07.included_first / included_only_first, spec level on the parent side) — for a reported build
 `bd` of a parent branch, at commit `e`, whose pinned version of the component is `t`: a component build `x` is
@@ -269,100 +205,17 @@ Missing for the full statement: eligible commits that are *not* reported (they h
 this theorem), and the meaning of `RbAnc` / `bn_map` in terms of the component's git history. -/
 theorem included_first_reported_partial (rb : RBranch Bumps) (hrb : rb ∈ g.all) (comp : Nat) (gC : Graph Bumps)
     (hpin : ∀ bx ∈ rb.rbuilds, ∀ ex, BuildAt g.rcs bx ex →
-      ∃ bump t, bx.bumps.lookup comp = some bump ∧ bump.toRb = some t)
+      ∃ bump, bx.bumps.lookup comp = some bump ∧ ((∃ t, bump.toRb = some t) ∨ (bump.toRb = none ∧ bump.fromRbs = [])))
     (hmono : ∀ bp ∈ rb.rbuilds, ∀ bq ∈ rb.rbuilds, ∀ ep eq, BuildAt g.rcs bp ep → BuildAt g.rcs bq eq →
-      Anc h ep eq → ∀ bumpp tp bumpq tq, bp.bumps.lookup comp = some bumpp → bumpp.toRb = some tp →
-        bq.bumps.lookup comp = some bumpq → bumpq.toRb = some tq → RbAnc gC tp tq)
+      Anc h ep eq → ∀ bumpp tp, bp.bumps.lookup comp = some bumpp → bumpp.toRb = some tp →
+        ∃ bumpq tq, bq.bumps.lookup comp = some bumpq ∧ bumpq.toRb = some tq ∧ RbAnc gC tp tq)
     (bd : RB Bumps) (hbd : bd ∈ rb.rbuilds) (e : Nat) (hbe : BuildAt g.rcs bd e) (hbn : bd.bn ≠ fakeNM)
     (bump : Bump) (t : Nat) (hb1 : bd.bumps.lookup comp = some bump) (hb2 : bump.toRb = some t)
     (repo : Nat) (l : List Reg) (hl : regsOfBuild repo rb.name comp gC bd = .ok l) (x : Nat) :
     (⟨comp, x, repo, rb.name, bd.bn⟩ : Reg) ∈ l ↔
       RbAnc gC x t ∧ ∀ bp ∈ rb.rbuilds, ∀ ep, BuildAt g.rcs bp ep → ep ≠ e → Anc h ep e →
         ∀ bumpp tp, bp.bumps.lookup comp = some bumpp → bumpp.toRb = some tp → ¬ RbAnc gC x tp := by
-  have hg := rgraph_nw hT hW hgw
-  have hpar := parent_builds_nearest comps h hT hW hcw g hgw rb hrb bd hbd e hbe
-  have hinb : ∀ bx ∈ rb.rbuilds, ∀ ex, BuildAt g.rcs bx ex → bx ∈ g.builds := by
-    intro bx hbx ex hex
-    exact (rgraph_bumpsOk hT (RelInv.trivial _ _) hg).2 rb hrb bx hbx (by rw [hex.1]; rfl)
-  have hbdg := hinb bd hbd e hbe
-  rw [regsOfBuild_mem hl x]
-  constructor
-  · rintro ⟨_, bump', t', h1, h2, h3, h4⟩
-    rw [hb1] at h1; cases h1
-    rw [hb2] at h2; cases h2
-    refine ⟨h3, ?_⟩
-    intro bp hbp ep hbep hne hanc bumpp tp hp1 hp2 hcontra
-    -- a nearest build `bm` of the branch above `bp` and below `e`
-    have key : ∀ (k : Nat) (bq : RB Bumps) (eq : Nat), bq ∈ rb.rbuilds → BuildAt g.rcs bq eq → eq ≠ e → Anc h eq e →
-        e - eq ≤ k → ∃ bm ∈ rb.rbuilds, ∃ em, BuildAt g.rcs bm em ∧ em ≠ e ∧ Anc h em e ∧ Anc h eq em ∧
-          ∀ br ∈ rb.rbuilds, ∀ er, BuildAt g.rcs br er → er ≠ em → er ≠ e → Anc h er e → ¬ Anc h em er := by
-      intro k
-      induction k with
-      | zero =>
-        intro bq eq _ _ hqe hqa hk
-        have := hqa.le hT
-        exact absurd (by omega) hqe
-      | succ k ih =>
-        intro bq eq hbq hbeq hqe hqa hk
-        classical
-        by_cases hmax : ∀ br ∈ rb.rbuilds, ∀ er, BuildAt g.rcs br er → er ≠ eq → er ≠ e → Anc h er e → ¬ Anc h eq er
-        · exact ⟨bq, hbq, eq, hbeq, hqe, hqa, .refl _, hmax⟩
-        · have : ∃ br ∈ rb.rbuilds, ∃ er, BuildAt g.rcs br er ∧ er ≠ eq ∧ er ≠ e ∧ Anc h er e ∧ Anc h eq er := by
-            apply Classical.byContradiction
-            intro hno
-            apply hmax
-            intro br hbr er hber h5 h6 h7 h8
-            exact hno ⟨br, hbr, er, hber, h5, h6, h7, h8⟩
-          obtain ⟨br, hbr, er, hber, h5, h6, h7, h8⟩ := this
-          have hlt : eq < er := by
-            have := h8.le hT
-            rcases Nat.lt_or_ge eq er with h9 | h9
-            · exact h9
-            · exact absurd (by omega) h5
-          have hle := h7.le hT
-          obtain ⟨bm, hbm, em, h10, h11, h12, h13, h14⟩ := ih br er hbr hber h6 h7 (by omega)
-          exact ⟨bm, hbm, em, h10, h11, h12, h8.trans h13, h14⟩
-    obtain ⟨bm, hbm, em, hbem, hme, hma, hpm, hmmax⟩ := key (e - ep) bp ep hbp hbep hne hanc (Nat.le_refl _)
-    have hmpar : bm.iid ∈ bd.parents := (hpar.2 bm.iid).mpr ⟨bm, hbm, rfl, em, hbem, hme, hma, hmmax⟩
-    obtain ⟨bumpm, tm, hm1, hm2⟩ := hpin bm hbm em hbem
-    have hin := parent_version_in_from comps h hT hW hcw g hgw bm bd (hinb bm hbm em hbem) hbdg hmpar comp bumpm bump tm
-      hm1 hm2 hb1
-    have hcont := hmono bp hbp bm hbm ep em hbep hbem hpm bumpp tp bumpm tm hp1 hp2 hm1 hm2
-    exact h4 tm hin (RbAnc.trans hcontra hcont)
-  · rintro ⟨h3, h4⟩
-    refine ⟨hbn, bump, t, hb1, hb2, h3, ?_⟩
-    intro f hf hxf
-    -- `f` is the version of a parent build, which is a reported build of the branch below `e`
-    obtain ⟨rc, cm, pbs, _, _, hres, hall⟩ := bumps_recorded comps h hT hW hcw g hgw bd hbdg
-    obtain ⟨gC', v, _, _, _, hfrom, _⟩ := hall comp bump (lookup_some_mem hb1)
-    obtain ⟨pb, hpb, b0, hb0, hcase⟩ := (hfrom f).mp hf
-    -- `pb` is one of the resolved parent builds
-    have hpbpar : pb.iid ∈ bd.parents ∧ pb ∈ g.builds := by
-      clear hall hfrom
-      generalize bd.parents = is at hres
-      induction hres with
-      | nil => cases hpb
-      | @cons i pb' is' pbs' hm hi _ ih =>
-        rcases List.mem_cons.mp hpb with h5 | h5
-        · subst h5; exact ⟨by simp [hi], hm⟩
-        · obtain ⟨h6, h7⟩ := ih h5
-          exact ⟨List.mem_cons_of_mem _ h6, h7⟩
-    obtain ⟨bp, hbp, hbpi, ep, hbep, hne, hanc, _⟩ := (hpar.2 pb.iid).mp hpbpar.1
-    have hinc := (rgraph_facts hT hg).bldInc
-    have hbpg := hinb bp hbp ep hbep
-    have hpbeq : pb = bp := by
-      have e1 := build?_of_mem (rp := { (Repo.empty : Repo Bumps) with builds := g.builds }) hinc hpbpar.2
-      have e2 := build?_of_mem (rp := { (Repo.empty : Repo Bumps) with builds := g.builds }) hinc hbpg
-      rw [hbpi] at e2
-      rw [e1] at e2
-      exact Option.some.inj e2
-    subst hpbeq
-    obtain ⟨bumpp, tp, hp1, hp2⟩ := hpin pb hbp ep hbep
-    rw [hb0] at hp1; cases hp1
-    rcases hcase with h5 | ⟨h5, _⟩
-    · rw [hp2] at h5; cases h5
-      exact h4 pb hbp ep hbep hne hanc b0 f hb0 hp2 hxf
-    · rw [hp2] at h5; cases h5
+  apply Ghist.Incl.included_first_reported_partial <;> assumption
 
 /-- **partial** (C07.bump_build_reported) — every eligible commit of a branch (tagged or head, reachable from the
 head, not part of a lower-sorted branch) is a build of the branch in the report, unless it does not match and all the
@@ -380,45 +233,20 @@ theorem bump_build_reported_partial (j : Nat) (b : Branch) (rb : RBranch Bumps)
          (∀ pb ∈ pbs, pb ∈ g.builds) ∧
          mkBumps (sortBy (fun a b => a.1 < b.1) (relevantComps comps)) cm.pins (pbs.map (·.bumps)) = .ok bumps ∧
          ∀ cb ∈ bumps, cb.2.trivial = true)) := by
-  have hg := rgraph_nw hT hW hgw
-  rcases rgraph_elig hT (compWindow_full hcw) hg j b rb hb hrb e he with h1 | ⟨h1, h2⟩
-  · exact Or.inl h1
-  · right
-    refine ⟨h1, ?_⟩
-    rcases h2 with h2 | ⟨cm, pbs, bumps, rel, hrel, h3, h4, h5, h6, h7⟩
-    · left
-      exact mkPlug_relInit_nil h2
-    · right
-      rw [mkPlug_mkBumps_full hrel] at h6
-      refine ⟨cm, pbs, bumps, h3, h4, h5, h6, ?_⟩
-      intro cb hcb
-      simp only [mkPlug] at h7
-      cases hct : cb.2.trivial with
-      | true => rfl
-      | false =>
-        have : (bumps.any fun cb => !cb.2.trivial) = true :=
-          List.any_eq_true.mpr ⟨cb, hcb, by simp [hct]⟩
-        rw [this] at h7; cases h7
+  apply Ghist.Incl.bump_build_reported_partial <;> assumption
 
 end
-
-/-! Non-vacuity: `app(0) → lib(2), util(4)`, `lib → util` is ordered `util, lib, app` from every supply order;
-`app → lib → app` and a self-dependency are rejected. -/
-example : sortRepos [0, 2, 4] (fun i => if i = 0 then [2, 4, 9] else if i = 2 then [4] else []) = .ok [4, 2, 0] := by
-  decide
-example : sortRepos [4, 0, 2] (fun i => if i = 0 then [2, 4, 9] else if i = 2 then [4] else []) = .ok [4, 2, 0] := by
-  decide
-example : sortRepos [0, 2] (fun i => if i = 0 then [2] else [0]) = .error .valueError := by decide
-example : sortRepos [3] (fun _ => [3]) = .error .valueError := by decide
 
 /-! ## included_at at specification level on the parent side
 
 `pinRb h comp gC e` is the reported build of the component that the version pinned in commit `e` names (through the
-component's `bn_map`); `RbAnc gC x t` — the version `t` contains the component build `x`.  For the `j`-th branch `b`
-of the parent (`rb` its result), under the property's quantifier for that branch:
-* `hpin`  — every eligible commit of the branch (tagged or head, new in the branch) pins a version of the component
-            that names a build known to the component's `bn_map`;
-* `hmono` — along git ancestry the pinned version never decreases, read as containment. -/
+component's `bn_map`), `none` when the version names nothing there — it contains no reported build of the component,
+or is not a version of the component at all; `RbAnc gC x t` — the version `t` contains the component build `x`.  For
+the `j`-th branch `b` of the parent (`rb` its result), under the property's quantifier for that branch:
+* `hne`   — the component has reported builds (a non-empty `bn_map`);
+* `hpinv` — every eligible commit of the branch (tagged or head, new in the branch) pins some version of the component;
+* `hmono` — along git ancestry the pinned version never decreases, read as containment: what an earlier eligible commit
+            ships, a later one ships too. -/
 
 section
 variable (comps : List (Nat × Graph Bumps)) (h : Hist Pins) (hT : h.Topo) (hW : h.InWindow) (hcw : CompWindow comps h) (g : Graph Bumps)
@@ -426,229 +254,60 @@ variable (hgw : rgraph h (mkPlug comps) = .ok g)
 variable (j : Nat) (b : Branch) (rb : RBranch Bumps)
 variable (hb : (branchesOf h)[j]? = some b) (hrb : g.all[j]? = some rb)
 variable (comp : Nat) (gC : Graph Bumps) (hcomp : ∀ g', (comp, g') ∈ comps → g' = gC) (hin : (comp, gC) ∈ comps)
-variable (hpin : ∀ e', SpecBuild h ((branchesOf h).take j) b e' → ∃ t, pinRb h comp gC e' = some t)
+variable (hne : gC.bnMapAll ≠ [])
+variable (hpinv : ∀ e', SpecBuild h ((branchesOf h).take j) b e' →
+  ∃ cm v, h.commits[e']? = some cm ∧ cm.pins.lookup comp = some v)
 variable (hmono : ∀ e1 e2, SpecBuild h ((branchesOf h).take j) b e1 → SpecBuild h ((branchesOf h).take j) b e2 →
-  Anc h e1 e2 → ∀ t1 t2, pinRb h comp gC e1 = some t1 → pinRb h comp gC e2 = some t2 → RbAnc gC t1 t2)
-include hT hW hcw hgw hb hrb hcomp hin hpin
+  Anc h e1 e2 → ∀ t1, pinRb h comp gC e1 = some t1 → ∃ t2, pinRb h comp gC e2 = some t2 ∧ RbAnc gC t1 t2)
 
-/-- the bump of the component recorded in a reported build names the version pinned in the build's commit -/
-theorem reported_bump (bx : RB Bumps) (hbx : bx ∈ rb.rbuilds) (ex : Nat) (hex : BuildAt g.rcs bx ex) :
+include hT hW hcw hgw hb hrb hcomp hin hne hpinv hmono
+
+/-- the bump of the component recorded in a reported build names the build that the version pinned in the build's
+commit names; when the version names nothing, nothing was shipped before either -/
+theorem reported_bump : ∀ (ex : Nat) (bx : RB Bumps), bx ∈ rb.rbuilds → BuildAt g.rcs bx ex →
     SpecBuild h ((branchesOf h).take j) b ex ∧
-    ∃ bump t, bx.bumps.lookup comp = some bump ∧ bump.toRb = some t ∧ pinRb h comp gC ex = some t := by
-  have hg := rgraph_nw hT hW hgw
-  have hsem := ((rgraph_sem hT hg).2 j b rb hb hrb).1
-  obtain ⟨_, rc0, hrc0, hspec, _⟩ := hsem.buildSpec bx hbx (by rw [hex.1]; rfl)
-  obtain ⟨hrcm, rc1, hrc1, hce⟩ := hex
-  rw [hrc0] at hrc1; cases hrc1
-  rw [hce] at hspec
-  refine ⟨hspec, ?_⟩
-  obtain ⟨t, ht⟩ := hpin ex hspec
-  have hbg : bx ∈ g.builds :=
-    (rgraph_bumpsOk hT (RelInv.trivial _ _) hg).2 rb (List.mem_of_getElem? hrb) bx hbx (by rw [hrcm]; rfl)
-  obtain ⟨rc, cm, pbs, h1, h2, _, rel, hrel, h4⟩ := (rgraph_bumpsOk hT (compWindow_full hcw) hg).1 bx hbg
-  rw [mkPlug_mkBumps_full hrel] at h4
-  rw [hrc0] at h1; cases h1
-  rw [hce] at h2
-  simp only [pinRb, h2] at ht
-  cases hv : cm.pins.lookup comp with
-  | none => rw [hv] at ht; cases ht
-  | some v =>
-    rw [hv] at ht
-    obtain ⟨bump, h5, h6, _⟩ := bump_of_pin hcomp hin h4 hv ht
-    refine ⟨bump, t, h5, h6, ?_⟩
-    simp only [pinRb, h2, hv, ht]
+    ∃ bump, bx.bumps.lookup comp = some bump ∧ bump.toRb = pinRb h comp gC ex ∧
+      (pinRb h comp gC ex = none → bump.fromRbs = []) := by
+  apply Ghist.Incl.reported_bump <;> assumption
 
 /-- an eligible commit that is not reported pins the same component build as a reported build of the branch properly
 below it (its bump is trivial) -/
 theorem skipped_version (e' : Nat) (hspec' : SpecBuild h ((branchesOf h).take j) b e')
     (hnr : ¬ ∃ bx ∈ rb.rbuilds, BuildAt g.rcs bx e') (t' : Nat) (hpe' : pinRb h comp gC e' = some t') :
     ∃ pb ∈ rb.rbuilds, ∃ ep, BuildAt g.rcs pb ep ∧ ep ≠ e' ∧ Anc h ep e' ∧ pinRb h comp gC ep = some t' := by
-  have hg := rgraph_nw hT hW hgw
-  have hA := reported_bump comps h hT hW hcw g hgw j b rb hb hrb comp gC hcomp hin hpin
-  rcases rgraph_skip hT (compWindow_full hcw) hg j b rb hb hrb e' hspec' with hrep | ⟨_, hsk⟩
-  · exact absurd hrep hnr
-  · have hrel : (comp, gC) ∈ sortBy (fun a b : Nat × Graph Bumps => decide (a.1 < b.1)) (relevantComps comps) := by
-      apply (mem_sortBy _ _ _).mpr
-      simp only [relevantComps, List.mem_filter]
-      refine ⟨hin, ?_⟩
-      have := pinRb_bnMap_ne hpe'
-      cases hbm : gC.bnMapAll with
-      | nil => exact absurd hbm this
-      | cons y ys => simp
-    rcases hsk with ⟨hrelf, _⟩ | ⟨cm', pbs, bumps, rel', hrel', hcm', _, hpbs, _, hmk, hnt⟩
-    · have hemp := mkPlug_relInit_nil hrelf
-      have := (mem_sortBy _ _ _).mp hrel
-      rw [hemp] at this; cases this
-    · simp only [pinRb, hcm'] at hpe'
-      cases hv : cm'.pins.lookup comp with
-      | none => rw [hv] at hpe'; cases hpe'
-      | some v =>
-        rw [hv] at hpe'
-        rw [mkPlug_mkBumps_full hrel'] at hmk
-        simp only [mkPlug] at hnt
-        obtain ⟨bump', h3, h4, h5⟩ := bump_of_pin hcomp hin hmk hv hpe'
-        have htriv : bump'.trivial = true := by
-          cases hct : bump'.trivial with
-          | true => rfl
-          | false =>
-            have : (bumps.any fun cb => !cb.2.trivial) = true :=
-              List.any_eq_true.mpr ⟨(comp, bump'), lookup_some_mem h3, by simp [hct]⟩
-            rw [this] at hnt; cases hnt
-        simp only [Bump.trivial, h4] at htriv
-        have hin' : t' ∈ bump'.fromRbs := by simpa using htriv
-        rw [h5, mem_fromSet] at hin'
-        obtain ⟨pbb, hpbb, b0, hb0, hcase⟩ := hin'
-        obtain ⟨pb, hpb, rfl⟩ := List.mem_map.mp hpbb
-        obtain ⟨⟨hpbr, hpbc⟩, rcp, hrcp, hnep, hancp⟩ := hpbs pb hpb
-        have hbap : BuildAt g.rcs pb rcp.commit := ⟨hpbc, rcp, hrcp, rfl⟩
-        obtain ⟨_, bumpp, tp, h6, h7, h8⟩ := hA pb hpbr rcp.commit hbap
-        rw [hb0] at h6; cases h6
-        rcases hcase with h9 | ⟨h9, _⟩
-        · rw [h7] at h9; cases h9
-          exact ⟨pb, hpbr, rcp.commit, hbap, hnep, hancp, h8⟩
-        · rw [h7] at h9; cases h9
+  apply Ghist.Incl.skipped_version <;> assumption
 
-end
-
-section
-variable (comps : List (Nat × Graph Bumps)) (h : Hist Pins) (hT : h.Topo) (hW : h.InWindow) (hcw : CompWindow comps h) (g : Graph Bumps)
-variable (hgw : rgraph h (mkPlug comps) = .ok g)
-variable (j : Nat) (b : Branch) (rb : RBranch Bumps)
-variable (hb : (branchesOf h)[j]? = some b) (hrb : g.all[j]? = some rb)
-variable (comp : Nat) (gC : Graph Bumps) (hcomp : ∀ g', (comp, g') ∈ comps → g' = gC) (hin : (comp, gC) ∈ comps)
-variable (hpin : ∀ e', SpecBuild h ((branchesOf h).take j) b e' → ∃ t, pinRb h comp gC e' = some t)
-variable (hmono : ∀ e1 e2, SpecBuild h ((branchesOf h).take j) b e1 → SpecBuild h ((branchesOf h).take j) b e2 →
-  Anc h e1 e2 → ∀ t1 t2, pinRb h comp gC e1 = some t1 → pinRb h comp gC e2 = some t2 → RbAnc gC t1 t2)
-include hT hW hcw hgw hb hrb hcomp hin hpin hmono
-
-/-- **partial** (C07.included_first + included_only_first, specification level on the parent side) — a reported
-build `bd` of the branch, at commit `e`, registers the component build `x` exactly when the version pinned in `e`
-contains `x` and the version pinned in no other eligible commit of the branch (tagged or head, new in the branch —
-reported or not) that is a proper git ancestor of `e` contains it: `bd` is the first build of the branch that ships
-`x`, and no later build registers it again.
-Missing for the full statement: what `RbAnc gC` / the component's `bn_map` mean in the component's git history (the
-component side: for one release line, containment of reported builds = git ancestry; `parent_builds_nearest` is the
-main ingredient and holds for every repository, the `bn_map` part is not proved). -/
+/-- **partial** (C07.included_first + included_only_first, specification level on the parent side; the git meaning
+of `RbAnc gC` / `pinRb` is `included_first_git_partial`) — a reported build `bd` of the
+branch, at commit `e`, registers the component build `x` exactly when the version pinned in `e` contains `x` and the
+version pinned in no other eligible commit of the branch (tagged or head, new in the branch — reported or not) that
+is a proper git ancestor of `e` contains it: `bd` is the first build of the branch that ships `x`, and no later build
+registers it again. -/
 theorem included_first_spec_partial (bd : RB Bumps) (hbd : bd ∈ rb.rbuilds) (e : Nat) (hbe : BuildAt g.rcs bd e)
     (hbn : bd.bn ≠ fakeNM) (repo : Nat) (l : List Reg) (hl : regsOfBuild repo rb.name comp gC bd = .ok l) (x : Nat) :
     (⟨comp, x, repo, rb.name, bd.bn⟩ : Reg) ∈ l ↔
       ∃ t, pinRb h comp gC e = some t ∧ RbAnc gC x t ∧
         ∀ e', SpecBuild h ((branchesOf h).take j) b e' → e' ≠ e → Anc h e' e →
           ∀ t', pinRb h comp gC e' = some t' → ¬ RbAnc gC x t' := by
-  have hg := rgraph_nw hT hW hgw
-  have hrbm : rb ∈ g.all := List.mem_of_getElem? hrb
-  have hA := reported_bump comps h hT hW hcw g hgw j b rb hb hrb comp gC hcomp hin hpin
-  obtain ⟨hspece, bump, t, hb1, hb2, hpe⟩ := hA bd hbd e hbe
-  -- the hypotheses of the theorem about reported builds
-  have hpin' : ∀ bx ∈ rb.rbuilds, ∀ ex, BuildAt g.rcs bx ex →
-      ∃ bump t, bx.bumps.lookup comp = some bump ∧ bump.toRb = some t := by
-    intro bx hbx ex hex
-    obtain ⟨_, bump', t', h1, h2, _⟩ := hA bx hbx ex hex
-    exact ⟨bump', t', h1, h2⟩
-  have hmono' : ∀ bp ∈ rb.rbuilds, ∀ bq ∈ rb.rbuilds, ∀ ep eq, BuildAt g.rcs bp ep → BuildAt g.rcs bq eq →
-      Anc h ep eq → ∀ bumpp tp bumpq tq, bp.bumps.lookup comp = some bumpp → bumpp.toRb = some tp →
-        bq.bumps.lookup comp = some bumpq → bumpq.toRb = some tq → RbAnc gC tp tq := by
-    intro bp hbp bq hbq ep eq hep heq hanc bumpp tp bumpq tq h1 h2 h3 h4
-    obtain ⟨hsp, bp', tp', h5, h6, h7⟩ := hA bp hbp ep hep
-    obtain ⟨hsq, bq', tq', h8, h9, h10⟩ := hA bq hbq eq heq
-    rw [h1] at h5; cases h5
-    rw [h2] at h6; cases h6
-    rw [h3] at h8; cases h8
-    rw [h4] at h9; cases h9
-    exact hmono ep eq hsp hsq hanc tp tq h7 h10
-  rw [included_first_reported_partial comps h hT hW hcw g hgw rb hrbm comp gC hpin' hmono' bd hbd e hbe hbn bump t hb1 hb2
-    repo l hl x]
-  constructor
-  · rintro ⟨h1, h2⟩
-    refine ⟨t, hpe, h1, ?_⟩
-    intro e' hspec' hne hanc t' hpe' hcontra
-    -- `e'` is reported, or it pins the same build as a reported build below it
-    classical
-    by_cases hrep : ∃ bx ∈ rb.rbuilds, BuildAt g.rcs bx e'
-    · obtain ⟨bx, hbx, hbex⟩ := hrep
-      obtain ⟨_, bump', t'', h3, h4, h5⟩ := hA bx hbx e' hbex
-      rw [hpe'] at h5; cases h5
-      exact h2 bx hbx e' hbex hne hanc bump' t' h3 h4 hcontra
-    · obtain ⟨pb, hpbr, ep, hbap, hnep, hancp, hpep⟩ :=
-        skipped_version comps h hT hW hcw g hgw j b rb hb hrb comp gC hcomp hin hpin e' hspec' hrep t' hpe'
-      obtain ⟨_, bumpp, tp, h6, h7, h8⟩ := hA pb hpbr ep hbap
-      rw [hpep] at h8; cases h8
-      have hlt1 := hancp.le hT
-      have hlt2 := hanc.le hT
-      refine h2 pb hpbr ep hbap ?_ (hancp.trans hanc) bumpp t' h6 h7 hcontra
-      intro heq
-      have : e' = e := by
-        have h9 : e ≤ e' := by rw [← heq]; exact hlt1
-        omega
-      exact hne this
-  · rintro ⟨t0, hpe0, h1, h2⟩
-    rw [hpe] at hpe0; cases hpe0
-    refine ⟨h1, ?_⟩
-    intro bp hbp ep hbep hne hanc bumpp tp hp1 hp2
-    obtain ⟨hsp, bump', t', h3, h4, h5⟩ := hA bp hbp ep hbep
-    rw [hp1] at h3; cases h3
-    rw [hp2] at h4; cases h4
-    exact h2 ep hsp hne hanc tp h5
+  apply Ghist.Incl.included_first_spec <;> assumption
 
-/-- **partial** (C07.included_first, existence) — if the version pinned in some eligible commit `e0` of the branch
-contains the component build `x`, there is a *reported* build of the branch, at an eligible commit `e` below (or at)
-`e0`, whose version contains `x` while no eligible commit properly below `e` does: the first build that ships `x` is
-always reported (`bump_build_reported`), so by `included_first_spec_partial` `x` is registered there and only there.
-Missing: as for `included_first_spec_partial`. -/
+/-- **partial** (C07.included_first, existence; as for `included_first_spec_partial`) — if the version pinned in some eligible commit `e0` of the branch contains the
+component build `x`, there is a *reported* build of the branch, at an eligible commit `e` below (or at) `e0`, whose
+version contains `x` while no eligible commit properly below `e` does: the first build that ships `x` is always
+reported, so by `included_first_spec` `x` is registered there and only there. -/
 theorem included_first_exists_partial (x : Nat) : ∀ (e0 : Nat), SpecBuild h ((branchesOf h).take j) b e0 →
     ∀ t0, pinRb h comp gC e0 = some t0 → RbAnc gC x t0 →
     ∃ bd ∈ rb.rbuilds, ∃ e, BuildAt g.rcs bd e ∧ Anc h e e0 ∧ ∃ t, pinRb h comp gC e = some t ∧ RbAnc gC x t ∧
       ∀ e', SpecBuild h ((branchesOf h).take j) b e' → e' ≠ e → Anc h e' e →
         ∀ t', pinRb h comp gC e' = some t' → ¬ RbAnc gC x t' := by
-  have hg := rgraph_nw hT hW hgw
-  have hA := reported_bump comps h hT hW hcw g hgw j b rb hb hrb comp gC hcomp hin hpin
-  intro e0
-  induction e0 using Nat.strongRecOn with
-  | _ e0 ih =>
-    intro hspec0 t0 hp0 hx0
-    classical
-    by_cases hmin : ∀ e', SpecBuild h ((branchesOf h).take j) b e' → e' ≠ e0 → Anc h e' e0 →
-        ∀ t', pinRb h comp gC e' = some t' → ¬ RbAnc gC x t'
-    · -- `e0` is minimal: it must be reported
-      by_cases hrep : ∃ bx ∈ rb.rbuilds, BuildAt g.rcs bx e0
-      · obtain ⟨bx, hbx, hbex⟩ := hrep
-        exact ⟨bx, hbx, e0, hbex, .refl _, t0, hp0, hx0, hmin⟩
-      · exfalso
-        obtain ⟨pb, hpbr, ep, hbap, hnep, hancp, hpep⟩ :=
-          skipped_version comps h hT hW hcw g hgw j b rb hb hrb comp gC hcomp hin hpin e0 hspec0 hrep t0 hp0
-        obtain ⟨hsp, _⟩ := hA pb hpbr ep hbap
-        exact hmin ep hsp hnep hancp t0 hpep hx0
-    · -- an eligible commit properly below contains `x` already: descend
-      have : ∃ e', SpecBuild h ((branchesOf h).take j) b e' ∧ e' ≠ e0 ∧ Anc h e' e0 ∧
-          ∃ t', pinRb h comp gC e' = some t' ∧ RbAnc gC x t' := by
-        apply Classical.byContradiction
-        intro hno
-        apply hmin
-        intro e' h1 h2 h3 t' h4 h5
-        exact hno ⟨e', h1, h2, h3, t', h4, h5⟩
-      obtain ⟨e', h1, h2, h3, t', h4, h5⟩ := this
-      have hlt : e' < e0 := by
-        have := h3.le hT
-        rcases Nat.lt_or_ge e' e0 with h6 | h6
-        · exact h6
-        · exact absurd (by omega) h2
-      obtain ⟨bd, hbd, e, h6, h7, h8⟩ := ih e' hlt h1 t' h4 h5
-      exact ⟨bd, hbd, e, h6, h7.trans h3, h8⟩
+  apply Ghist.Incl.included_first_exists <;> assumption
 
 end
 
-/-! ## included_at in git terms, for a component release line
+/-! ## included_at in git terms
 
 The component's history `hC` (graph `gC`), its `jC`-th branch `bC` (result `rbC`); the parent's history `h` (graph
 `g`, built with the component graphs `comps ∋ (comp, gC)`), its `j`-th branch `b` (result `rb`). -/
-
-/-- the eligible parent commit `e` pins the version of the component that is a build tag of the component commit
-`cv` — a commit of the component branch `bC` (first read there) with a reported component build at or below it -/
-def PinsTo (h hC : Hist Pins) (comp : Nat) (gC : Graph Bumps) (preC : List Branch) (bC : Branch)
-    (rbC : RBranch Bumps) (e cv : Nat) : Prop :=
-  ∃ cm v cmv, h.commits[e]? = some cm ∧ cm.pins.lookup comp = some v ∧ hC.commits[cv]? = some cmv ∧
-    (⟨v.1, v.2.1, v.2.2, v.2.2⟩ : BN) ∈ cmv.tags ∧ SpecBuild hC preC bC cv ∧
-    ∃ bt ∈ rbC.rbuilds, ∃ et, BuildAt gC.rcs bt et ∧ Anc hC et cv
 
 section
 variable (comps : List (Nat × Graph Bumps)) (h : Hist Pins) (hT : h.Topo) (hW : h.InWindow) (hcw : CompWindow comps h) (g : Graph Bumps)
@@ -661,79 +320,34 @@ variable (hWC : hC.InWindow) (hgCw : rgraph hC plC = .ok gC) (hlenC : gC.rcs.len
 variable (jC : Nat) (bC : Branch) (rbC : RBranch Bumps)
 variable (hbC : (branchesOf hC)[jC]? = some bC) (hrbC : gC.all[jC]? = some rbC)
 variable (hpins : ∀ e', SpecBuild h ((branchesOf h).take j) b e' →
-  ∃ cv, PinsTo h hC comp gC ((branchesOf hC).take jC) bC rbC e' cv)
+  (∃ cv, PinsAt h hC comp ((branchesOf hC).take jC) bC e' cv) ∨ PinsNothing h hC comp gC e')
 variable (hmonoC : ∀ e1 e2, SpecBuild h ((branchesOf h).take j) b e1 → SpecBuild h ((branchesOf h).take j) b e2 →
-  Anc h e1 e2 → ∀ cv1 cv2, PinsTo h hC comp gC ((branchesOf hC).take jC) bC rbC e1 cv1 →
-    PinsTo h hC comp gC ((branchesOf hC).take jC) bC rbC e2 cv2 → Anc hC cv1 cv2)
+  Anc h e1 e2 → ∀ cv1, PinsAt h hC comp ((branchesOf hC).take jC) bC e1 cv1 → HasBuild hC gC rbC cv1 →
+    ∃ cv2, PinsAt h hC comp ((branchesOf hC).take jC) bC e2 cv2 ∧ Anc hC cv1 cv2)
 include hT hW hcw hgw hb hrb hcomp hin hTC huC hWC hgCw hlenC hbC hrbC hpins hmonoC
 
-/-- **partial** (C07.included_first + included_only_first in git terms, one component release line) — a reported
-build `bd` of the parent branch, at commit `e` which pins the component version tagged on component commit `cv`,
-has the reported component build at commit `ex` (same component branch) in its registrations exactly when `ex` is a
-git ancestor of (or equal to) `cv` and of no component commit pinned by an eligible parent commit properly below `e`:
+/-- **partial** (C07.included_first + included_only_first in git terms) — a reported build `bd` of the parent branch,
+at commit `e`, has the reported component build at commit `ex` of the component branch `bC` in its registrations
+exactly when `e` pins the build tag of a component commit `cv` of that branch with `ex` a git ancestor of (or equal
+to) `cv`, and no eligible parent commit properly below `e` pins a commit of the branch that `ex` is an ancestor of:
 the component build is recorded at exactly the first build of the parent branch whose pinned version contains it.
-Hypotheses = the property's quantifier for this branch pair: every eligible parent commit pins a build tag of a
-commit of the component branch that has a reported build at or below it (`hpins`), the pinned commit never goes back
-along git ancestry (`hmonoC`), component build numbers are unique to their commits (`huC`), fewer than 10^9 report
-commits (`hlenC`).
-Missing for the full statement: pins into several component release lines (the code links component builds inside
-one branch only — the case the statement does not spell out), and eligible parent commits whose pinned version
-contains no reported component build at all. -/
+Hypotheses = the property's quantifier for this pair of branches: every eligible parent commit pins either a build
+tag of a commit of the component branch `bC` (`PinsAt`; the commit may have no reported build at or below it) or a
+version that ships no reported component build at all — a version of another release line without report-related
+builds, or no build tag of the component (`PinsNothing`); the pinned commit never goes back along git ancestry once
+it has a reported build below it (`hmonoC`); component build numbers are unique to their commits (`huC`); fewer
+than 10^9 report commits (`hlenC`); commit times inside the cut-off windows (`hW`, `hcw`, `hWC`).
+Missing for the full statement: parent branches whose pins move from one component release line *with* reported
+builds to another one (the code links component builds inside one release line only: such a parent build registers
+the builds of the new line, the statement of the property does not spell this case out). -/
 theorem included_first_git_partial (bd : RB Bumps) (hbd : bd ∈ rb.rbuilds) (e : Nat) (hbe : BuildAt g.rcs bd e)
-    (hbn : bd.bn ≠ fakeNM) (cv : Nat) (hpe : PinsTo h hC comp gC ((branchesOf hC).take jC) bC rbC e cv)
-    (bx : RB Bumps) (hbx : bx ∈ rbC.rbuilds) (ex : Nat) (hex : BuildAt gC.rcs bx ex)
+    (hbn : bd.bn ≠ fakeNM) (bx : RB Bumps) (hbx : bx ∈ rbC.rbuilds) (ex : Nat) (hex : BuildAt gC.rcs bx ex)
     (repo : Nat) (l : List Reg) (hl : regsOfBuild repo rb.name comp gC bd = .ok l) :
     (⟨comp, bx.iid, repo, rb.name, bd.bn⟩ : Reg) ∈ l ↔
-      Anc hC ex cv ∧ ∀ e', SpecBuild h ((branchesOf h).take j) b e' → e' ≠ e → Anc h e' e →
-        ∀ cv', PinsTo h hC comp gC ((branchesOf hC).take jC) bC rbC e' cv' → ¬ Anc hC ex cv' := by
-  have hg := rgraph_nw hT hW hgw
-  have hgC := rgraph_nw hTC hWC hgCw
-  -- what a pin means for `pinRb`
-  have hpinrb : ∀ e' cv', PinsTo h hC comp gC ((branchesOf hC).take jC) bC rbC e' cv' →
-      ∃ t, pinRb h comp gC e' = some t ∧
-        (∀ by' ∈ rbC.rbuilds, ∀ ey, BuildAt gC.rcs by' ey → (RbAnc gC by'.iid t ↔ Anc hC ey cv')) ∧
-        ∃ bi ∈ rbC.rbuilds, bi.iid = t ∧ ∃ ei, BuildAt gC.rcs bi ei ∧ Anc hC ei cv' := by
-    rintro e' cv' ⟨cm, v, cmv, h1, h2, h3, h4, h5, bt, hbt, et, hbet, hanc⟩
-    obtain ⟨en, hen, _⟩ := (version_contains_iff hTC huC hgC hlenC hbC hrbC h3 h4 h5 hbt hbet).mpr hanc
-    refine ⟨en.2, by simp [pinRb, h1, h2, hen], ?_, version_build hTC huC hgC hbC hrbC h3 h4 h5 hen⟩
-    intro by' hby ey hbey
-    rw [← version_contains_iff hTC huC hgC hlenC hbC hrbC h3 h4 h5 hby hbey]
-    constructor
-    · intro hr; exact ⟨en, hen, hr⟩
-    · rintro ⟨en', hen', hr⟩; rw [hen] at hen'; cases hen'; exact hr
-  have hpin : ∀ e', SpecBuild h ((branchesOf h).take j) b e' → ∃ t, pinRb h comp gC e' = some t := by
-    intro e' hs
-    obtain ⟨cv', hp⟩ := hpins e' hs
-    obtain ⟨t, ht, _⟩ := hpinrb e' cv' hp
-    exact ⟨t, ht⟩
-  have hmono : ∀ e1 e2, SpecBuild h ((branchesOf h).take j) b e1 → SpecBuild h ((branchesOf h).take j) b e2 →
-      Anc h e1 e2 → ∀ t1 t2, pinRb h comp gC e1 = some t1 → pinRb h comp gC e2 = some t2 → RbAnc gC t1 t2 := by
-    intro e1 e2 hs1 hs2 hanc t1 t2 ht1 ht2
-    obtain ⟨cv1, hp1⟩ := hpins e1 hs1
-    obtain ⟨cv2, hp2⟩ := hpins e2 hs2
-    obtain ⟨t1', h1, _, bi, hbi, hbit, ei, hbei, hei⟩ := hpinrb e1 cv1 hp1
-    obtain ⟨t2', h2, hiff2, _⟩ := hpinrb e2 cv2 hp2
-    rw [ht1] at h1; cases h1
-    rw [ht2] at h2; cases h2
-    rw [← hbit]
-    exact (hiff2 bi hbi ei hbei).mpr (hei.trans (hmonoC e1 e2 hs1 hs2 hanc cv1 cv2 hp1 hp2))
-  rw [included_first_spec_partial comps h hT hW hcw g hgw j b rb hb hrb comp gC hcomp hin hpin hmono bd hbd e hbe hbn
-    repo l hl bx.iid]
-  obtain ⟨t, ht, hifft, _⟩ := hpinrb e cv hpe
-  constructor
-  · rintro ⟨t0, ht0, h1, h2⟩
-    rw [ht] at ht0; cases ht0
-    refine ⟨(hifft bx hbx ex hex).mp h1, ?_⟩
-    intro e' hs' hne hanc cv' hp' hcontra
-    obtain ⟨t', ht', hifft', _⟩ := hpinrb e' cv' hp'
-    exact h2 e' hs' hne hanc t' ht' ((hifft' bx hbx ex hex).mpr hcontra)
-  · rintro ⟨h1, h2⟩
-    refine ⟨t, ht, (hifft bx hbx ex hex).mpr h1, ?_⟩
-    intro e' hs' hne hanc t' ht' hcontra
-    obtain ⟨cv', hp'⟩ := hpins e' hs'
-    obtain ⟨t'', ht'', hifft', _⟩ := hpinrb e' cv' hp'
-    rw [ht'] at ht''; cases ht''
-    exact h2 e' hs' hne hanc cv' hp' ((hifft' bx hbx ex hex).mp hcontra)
+      (∃ cv, PinsAt h hC comp ((branchesOf hC).take jC) bC e cv ∧ Anc hC ex cv) ∧
+      ∀ e', SpecBuild h ((branchesOf h).take j) b e' → e' ≠ e → Anc h e' e →
+        ∀ cv', PinsAt h hC comp ((branchesOf hC).take jC) bC e' cv' → ¬ Anc hC ex cv' := by
+  apply Ghist.Incl.included_first_git <;> assumption
 
 end
 
